@@ -57,6 +57,9 @@ type tcase struct {
 	Threads  [][]string `json:"threads"` // S1: op names; S2: program sources; S3: native file names
 	Choices  []int      `json:"choices,omitempty"`
 	Bound    int        `json:"bound"`
+	// FreeResults: the threads legitimately communicate through a variable one of them binds again, so their results
+	// may depend on the schedule; races, deadlocks and panics are still checked (also which names get interned may then depend on the schedule)
+	FreeResults bool `json:"free_results,omitempty"`
 }
 
 type world struct {
@@ -223,7 +226,8 @@ func genS4(thorough bool, emit func(tcase)) {
 	if thorough {
 		bound = 2
 	}
-	mains := []string{"zz_c20_g1 := zz_c20_g0 + 1; zz_c20_g2 := 2; zz_c20_g1", "zz_c20_other := {|| 1}; zz_c20_other()"}
+	// the main script defines new names, and binds names again that exist already and that the handlers read
+	mains := []string{"zz_c20_g1 := zz_c20_g0 + 1; zz_c20_g2 := 2; zz_c20_g1", "zz_c20_other := {|| 1}; zz_c20_other()", "zz_c20_g0 := 11; zz_c20_g0 := 12; zz_c20_g0", "zz_c20_list := [4, 5]; zz_c20_defaults := {status: 404}; zz_c20_list.len"}
 	handlers := []string{"zz_c20_handler(1)", "[1, 2]@{|r| zz_c20_handler(r)}"}
 	// handlers that only READ values of the shared scope while building their own: keyword objects and arrays expanded
 	// into calls and literals, an iterator literal instantiated, a function called by both
@@ -236,12 +240,20 @@ func genS4(thorough bool, emit func(tcase)) {
 			emit(tcase{Scenario: "S4", Threads: [][]string{{mains[0]}, {readers[i]}, {readers[j]}}, Bound: 1})
 		}
 	}
-	for _, m := range mains {
+	for mi, m := range mains {
 		for _, h := range handlers {
-			emit(tcase{Scenario: "S4", Threads: [][]string{{m}, {h}}, Bound: bound})
+			emit(tcase{Scenario: "S4", Threads: [][]string{{m}, {h}}, Bound: bound, FreeResults: mi >= 2})
+		}
+		if mi >= 2 {
+			for _, h := range readers[:4] {
+				emit(tcase{Scenario: "S4", Threads: [][]string{{m}, {h}}, Bound: 1, FreeResults: true})
+			}
 		}
 	}
 	emit(tcase{Scenario: "S4", Threads: [][]string{{mains[0]}, {handlers[0]}, {handlers[0]}}, Bound: 1})
+	// two evaluations in the shared scope itself binding the same existing name again (thread 1 runs in an enclosed scope:
+	// its assignment is its own, its reads go to the shared scope)
+	emit(tcase{Scenario: "S4", Threads: [][]string{{mains[2]}, {"zz_c20_g0 + 1"}, {"zz_c20_g0 := 5; zz_c20_g0"}}, Bound: 1, FreeResults: true})
 }
 
 // ---------------------------------------------------------------- S5: the http module's request handlers
@@ -546,10 +558,10 @@ func (w *world) explore(t tcase, maxExec int) {
 			b := cur
 			base = &b
 		} else {
-			if cur.tables != base.tables {
+			if cur.tables != base.tables && !t.FreeResults {
 				viol("final-tables-depend-on-schedule", base.tables, cur.tables, x)
 			}
-			if t.Scenario != "S1" && strings.Join(cur.results, "|") != strings.Join(base.results, "|") {
+			if t.Scenario != "S1" && !t.FreeResults && strings.Join(cur.results, "|") != strings.Join(base.results, "|") {
 				viol("results-depend-on-schedule", strings.Join(base.results, "|"), strings.Join(cur.results, "|"), x)
 			}
 		}
